@@ -139,8 +139,9 @@ func (sm *stateMachine) executeAction(t *T) bool {
 }
 
 func runAction(t *T, action func(*T)) (invalid bool, skipped bool) {
+	finished := false
 	defer func(started int) {
-		if r := recover(); r != nil {
+		if r := abnormalEnd(recover(), finished); r != nil {
 			if _, ok := r.(invalidData); ok {
 				t.failOnError() // an action that has already failed is not merely inapplicable
 				invalid = true
@@ -153,6 +154,7 @@ func runAction(t *T, action func(*T)) (invalid bool, skipped bool) {
 
 	action(t)
 	t.failOnError()
+	finished = true
 
 	return false, false
 }
